@@ -88,7 +88,9 @@ def run_field(case, rec):
 
 
 # ------------------------------------------------------------------ split / combine
-SECRETS = [bytes(16), b"\xff" * 16, b"\x80" + bytes(15), bytes(15) + b"\x87", bytes(15) + b"\x01"]
+# (the last ones are 16-byte strings that also read as text: decimal literals, padded numbers, hex digits - a secret is bytes, never a number)
+SECRETS = [bytes(16), b"\xff" * 16, b"\x80" + bytes(15), bytes(15) + b"\x87", bytes(15) + b"\x01",
+           b"1234567890123456", b"0000000000000000", b"        20260926", b"+000000000000001", b"1_0_0_0_0_0_0_0_", b"-123456789012345", b"0x00000000000001", b"deadbeefdeadbeef"]
 
 
 def secret():
